@@ -334,6 +334,8 @@ func runRedirect(curRTSPS bool, chain []int, status base.StatusCode) {
 		end = 1
 	case strings.Contains(err.Error(), "unsupported scheme"):
 		end = 2
+	case strings.Contains(err.Error(), "too many redirects"):
+		end = 3
 	case strings.Contains(err.Error(), "bad status code: 404"):
 		end = 0
 	}
@@ -390,6 +392,17 @@ func stageClient() {
 				k++
 			}
 		}
+	}
+	// longer than the client's redirect limit: the chain is cut, and never downgraded on the way
+	for _, cur := range bools {
+		long := make([]int, 13)
+		for j := range long {
+			long[j] = 1
+		}
+		runRedirect(cur, long, base.StatusFound)
+		long2 := make([]int, 12) // rtsp all the way
+		runRedirect(false, long2, base.StatusMovedPermanently)
+		_ = cur
 	}
 	for i := ctx.Budget(6, 200); i > 0; i-- {
 		ch := make([]int, ctx.Rng.Range(3, 6))
